@@ -82,7 +82,7 @@ def dft2_gain(repo, unitary):
 def run_check(chk, repo, tier):
     chk.clause('C01-a', 'kernel phase pairs (alpha, offset, shift) of the same axis on each side', 4)
     chk.clause('C01-c', 'triple product contracts rows of f with the row kernel and columns with the column kernel', 1)
-    chk.clause('C01-d', 'origin of all four coordinate vectors at floor(n/2)', 4)
+    chk.clause('C01-d', 'origin of all four coordinate vectors at floor(n/2); integer-counted ranges', 5)
     chk.clause('C01-e', 'kernel constant is -2*pi*i in both matrices', 2)
     chk.clause('C01-g', 'gain is sqrt|alpha_r*alpha_c| exactly when unitary, 1 otherwise', 2)
     chk.clause('C01-h', 'inverse: total gain 1/N when not unitary, sqrt|alpha_r*alpha_c| when unitary', 2)
@@ -94,6 +94,22 @@ def run_check(chk, repo, tier):
     fdft = repo.func('fourier.dft2')
     alpha, shift, offset = pair('alpha'), pair('shift'), pair('offset')
     a0, a1 = alpha.items
+    # the coordinate vectors have exactly m, n, M, N entries: np.arange counts ceil(stop - start) in floating point, so a
+    # range whose end points carry the (fractional) shift or sampling returns one entry more for some arguments
+    _, cpaths, _ = analyse(repo, fdft, inline=fourier_inline(repo), config={'unitary': TRUE, 'shape': pair('shape')})
+    real_valued = set(nf.value_atoms(shift)) | set(nf.value_atoms(alpha)) | {('sym', 'shift'), ('sym', 'alpha')}
+    bad_ar, n_ar = [], 0
+    for p in returns(cpaths):
+        for e in p.events:
+            if e.kind == 'call' and e.data.get('callee') in ('ext:numpy.arange', 'ext:numpy.linspace'):
+                n_ar += 1
+                args = list(e.data.get('args', []))[:2] if e.data.get('callee').endswith('arange') else []
+                if any(isinstance(x, Poly) and real_valued & nf.value_atoms(x) for x in args):
+                    bad_ar.append(f'arange({", ".join(fmt(x)[:50] for x in e.data.get("args", []))}) at {e.loc()}')
+    chk.ob('C01-d', 'N-count', 'fourier._dft2_coords', 'coordinate vectors are counted with integer bounds (shift and sampling are added afterwards)',
+           (not bad_ar) if n_ar else None,
+           ('; '.join(sorted(set(bad_ar))[:2]) + ': the number of output samples becomes ceil(stop - start) of two rounded real numbers - '
+            'dft2 returns M+1 rows for some shifts') if bad_ar else f'{n_ar} range(s) with integer bounds', fdft.loc())
     fs = nf.attr(S('f'), 'shape')
     m_, n_ = nf.index(fs, C(0)), nf.index(fs, C(1))
     for shape_cfg, label in ((pair('shape'), 'shape given'), (NONE, 'shape=None')):
